@@ -222,6 +222,64 @@ def run(ck, facts, tier):
     ea, em = oracle.expected("add", u, z), oracle.expected("mul", u, o)
     ck.check(r5, "neutrality", all(ea[f] == u.fields[f] and em[f] == u.fields[f] for f in ("real", "dual", "dual2")),
              "oracle rows do not make (0,0,0)/(1,0,0) neutral", sample="u + 0 = u, u * 1 = u in value, gradient and Hessian by the table")
+    # ---- R19.6 sign tests and the zero test depend on the value alone
+    r6 = ck.rule("R19.6", "signum() = new(signum(value), []) (a variable-free constant); is_positive()/is_negative() are the sign bit of the value; is_zero() is "
+                          "`self == zero()` by the type's own ==; the container forwards each to the contained number, kind by kind", floor=20)
+    from rules import c18
+    D = {"Dual": "dual::dual::Dual", "Dual2": "dual::dual::Dual2"}
+    contained = {}
+    for meth, ti in (("signum", "num_traits::Signed::signum"), ("is_positive", "num_traits::Signed::is_positive"), ("is_negative", "num_traits::Signed::is_negative"),
+                     ("is_zero", "num_traits::Zero::is_zero")):
+        for kind, num in D.items():
+            rs = [r for r in facts.all_fns() if r.get("trait_item") == ti and r.get("self_ty") == num]
+            key = "%s for %s" % (meth, kind)
+            if not rs:
+                ck.fail(r6, key, "impl not found")
+                continue
+            r = rs[0]
+            where = "%s:%d" % (r["file"], r["line"])
+            u = cel.operand("u", num)
+            try:
+                v = cel.Ev(facts).apply_fn(r["fn"], [u], 0)
+                contained[(meth, kind)] = v
+                if meth == "signum":
+                    ok = isinstance(v, Rec) and v.fields["real"] == cel.func_atom("signum", u.fields["real"]) and v.fields["dual"].is_zero() and \
+                        v.fields["vars"].tag == ("novars",) and (kind == "Dual" or cel.num(v.fields["dual2"]).is_zero())
+                    why = "signum is not the variable-free constant signum(value): %s" % cel.vfmt(v)[:200]
+                elif meth in ("is_positive", "is_negative"):
+                    ok = cel.vkey(v) == cel.vkey(Sym("signbit", "pos" if meth == "is_positive" else "neg", u.fields["real"].key()))
+                    why = "%s is not the sign bit of the value: %s" % (meth, cel.vfmt(v)[:200])
+                else:
+                    zero_fn = next(rr["fn"] for rr in facts.all_fns() if rr.get("trait_item") == "num_traits::Zero::zero" and rr.get("self_ty") == num)
+                    eq_fn = next(rr["fn"] for rr in facts.all_fns() if rr.get("trait_item") == "std::cmp::PartialEq::eq" and [t.replace("&", "") for t in rr["sig"]] == [num, num])
+                    e2 = cel.Ev(facts)
+                    want = e2.apply_fn(eq_fn, [u, e2.apply_fn(zero_fn, [], 0)], 0)
+                    ok = _noclos(cel.vkey(v)) == _noclos(cel.vkey(want))
+                    why = "is_zero is not `self == zero()` by the type's own ==: %s" % cel.vfmt(v)[:200]
+                ck.check(r6, key, ok, why, where, sample=cel.vfmt(v)[:120])
+            except (Unsupported, StopIteration) as e:
+                ck.fail(r6, key, "rule could not be established (%s)" % e, where)
+        rs = [r for r in facts.all_fns() if r.get("trait_item") == ti and r.get("self_ty") == "dual::enums::Number"]
+        if not rs:
+            ck.fail(r6, "%s for Number" % meth, "impl not found")
+            continue
+        r = rs[0]
+        where = "%s:%d" % (r["file"], r["line"])
+        for kind in c18.KINDS:
+            key = "%s for Number[%s]" % (meth, kind)
+            try:
+                v = cel.Ev(facts).apply_fn(r["fn"], [c18.number(kind, "u")], 0)
+                if kind == "F64":
+                    uf = Poly.atom("u")
+                    want = {"signum": Sym("ctor", "F64", cel.func_atom("signum", uf)), "is_positive": Sym("signbit", "pos", uf.key()), "is_negative": Sym("signbit", "neg", uf.key()),
+                            "is_zero": Sym("cmp", "Eq", uf.key())}[meth]
+                else:
+                    if (meth, kind) not in contained:
+                        raise Unsupported("the contained method was not evaluated")
+                    want = Sym("ctor", kind, contained[(meth, kind)]) if meth == "signum" else contained[(meth, kind)]
+                ck.check(r6, key, _noclos(cel.vkey(v)) == _noclos(cel.vkey(want)), "Number::%s on %s is not the contained number's: %s" % (meth, kind, cel.vfmt(v)[:200]), where, sample=cel.vfmt(v)[:120])
+            except Unsupported as e:
+                ck.fail(r6, key, "rule could not be established (%s)" % e, where)
     from rules import deps
     deps.include_number_surface(ck, facts, tier)
     # the remainder, ordering and sums of two numbers on different variable lists go through the alignment (to_union_vars / to_new_vars): its by-name
